@@ -113,7 +113,6 @@ def c10_frame(ctx, carrier, step_ft, wind, kw, op, preset):
         getattr(p, 'loadMetricUnits' if preset == 'metric' else 'loadImperialUnits')()
         used, shot1 = carriers.make(carrier, step_ft, wind, config=cfg_raise, **kw)
         fresh, shot2 = carriers.make(carrier, step_ft, wind, config=cfg_raise, **kw)
-        old_global = tcpkg._globalMaxCalcStepSizeFeet
         try:
             # the atmosphere object of the used side has already served ANOTHER shot (steeper, other load): it must carry no imprint
             other_calc, other_shot = carriers.make('C', step_ft, 'none', relative_deg=40.0)
@@ -121,11 +120,11 @@ def c10_frame(ctx, carrier, step_ft, wind, kw, op, preset):
             other_calc.fire(other_shot, U.Foot(8 * step_ft), U.Foot(2 * step_ft))
             garbage = _poison(ctx, used)
             # process globals changed AFTER the calculators were created must not matter
-            tcpkg._globalMaxCalcStepSizeFeet = ctx.real('garbage_global_step', 1e-3, 1e3)
+            tcpkg.set_global_max_calc_step_size(U.Foot(ctx.real('garbage_global_step', 1e-3, 1e3)))
             got = operate(used, shot1)
             want = operate(fresh, shot2)
         finally:
-            tcpkg._globalMaxCalcStepSizeFeet = old_global
+            tcpkg.reset_globals()
     ctx.check('same_kind_of_outcome', got[0] == want[0], info={'got': got[0], 'want': want[0]})
     if got[0] == 'rows':
         ctx.check('same_as_fresh_calculator', _rows_equal(ctx, got[1], want[1]))
